@@ -36,7 +36,7 @@ type c17raw struct {
 	release   chan struct{} // harness -> hook
 	exited    chan struct{} // the server's accept callback for this connection has returned
 	exitOnce  sync.Once
-	phase     string        // wait | checked | registered | running | closed
+	phase     string // wait | checked | registered | running | closed
 	key       int
 	okAtCheck bool // the reference's verdict at the moment the identity was tested
 	either    bool // a SetValidPeers call was in progress at that moment and changes the verdict
@@ -54,10 +54,21 @@ func c17addrKey(a network.Address) string {
 	if i := strings.Index(s, "://"); i >= 0 {
 		s = s[i+3:]
 	}
+	// the port alone: a listener's own address may name the wildcard host ("[::]:41234") while the connection
+	// made to it names the loopback; ports are unique on the machine / inside one in-memory manager
+	if i := strings.LastIndex(s, ":"); i >= 0 {
+		s = s[i+1:]
+	}
 	return s
 }
 
 func c17hook(name string, r *network.Router, c network.Conn) {
+	if name == "connect:before-register" || name == "connect:before-launch" {
+		if v, ok := c17worlds.Load(r); ok && c != nil {
+			v.(*c17world).dialPoint(name, c)
+		}
+		return
+	}
 	if name != "accept:before-register" && name != "accept:before-launch" && name != "accept:exit" {
 		return
 	}
